@@ -26,7 +26,7 @@ Fixpoint m_get (k : string) (m : smap) : option rvalue :=
 Inductive vkind := KNum | KText | KEnum | KFields.
 
 Definition kind_of_value (v : rvalue) : vkind :=
-  match v with RVNum _ => KNum | RVText _ => KText | RVEnum _ _ => KEnum | RVFields _ => KFields end.
+  match v with RVNum _ _ => KNum | RVText _ => KText | RVEnum _ _ => KEnum | RVFields _ => KFields end.
 
 Definition vkind_eqb (a b : vkind) : bool :=
   match a, b with KNum, KNum | KText, KText | KEnum, KEnum | KFields, KFields => true | _, _ => false end.
@@ -42,7 +42,7 @@ Definition rv_map (k : vkind) (m : regvalues) : smap :=
 Definition rv_put (m : regvalues) (d : reg * rvalue) : regvalues :=
   let n := r_name (fst d) in
   match snd d with
-  | RVNum _ => mkRV (m_set n (snd d) (rv_num m)) (rv_text m) (rv_enum m) (rv_fl m)
+  | RVNum _ _ => mkRV (m_set n (snd d) (rv_num m)) (rv_text m) (rv_enum m) (rv_fl m)
   | RVText _ => mkRV (rv_num m) (m_set n (snd d) (rv_text m)) (rv_enum m) (rv_fl m)
   | RVEnum _ _ => mkRV (rv_num m) (rv_text m) (m_set n (snd d) (rv_enum m)) (rv_fl m)
   | RVFields _ => mkRV (rv_num m) (rv_text m) (rv_enum m) (m_set n (snd d) (rv_fl m))
